@@ -291,6 +291,18 @@ func runHist(c histCase) harness.Result {
 	return harness.Result{NonTrivial: len(c.Actions) >= 2 && overlap, Labels: labels}
 }
 
+// anyOrder: side-effect freedom must hold for every byte order value a caller can pass, not only the documented
+// constants (the oracle is the library itself on a pristine copy, so no reference semantics are needed).
+func anyOrder(t *rapid.T) uint8 {
+	switch rapid.IntRange(0, 3).Draw(t, "order_mode") {
+	case 0:
+		return rapid.SampledFrom([]uint8{spec.LowWordFirst, spec.HighWordFirst, spec.LowWordFirst | spec.HighWordFirst, spec.BigEndian | spec.LittleEndian, 16, 0x80, 0xFF}).Draw(t, "order_odd")
+	case 1:
+		return rapid.Uint8().Draw(t, "order_any")
+	}
+	return rapid.SampledFrom(spec.DocumentedOrders).Draw(t, "order")
+}
+
 func genHist(t *rapid.T) histCase {
 	coils := rapid.IntRange(0, 4).Draw(t, "coils") == 0
 	c := histCase{Framing: gen.Framing(t), Reversed: rapid.Bool().Draw(t, "reversed")}
@@ -322,7 +334,7 @@ func genHist(t *rapid.T) histCase {
 	c.Payload = gen.Payload(t, "payload", 2*count)
 	c.Start = rapid.SampledFrom([]int{0, 10, 65536 - count, 30000}).Draw(t, "start")
 	if rapid.Bool().Draw(t, "with_default") {
-		c.Default = rapid.SampledFrom(spec.DocumentedOrders[1:]).Draw(t, "default_order")
+		c.Default = anyOrder(t)
 	}
 	// reads concentrate on a small hot zone so that they overlap
 	hot := rapid.IntRange(0, count-1).Draw(t, "hot")
@@ -335,12 +347,12 @@ func genHist(t *rapid.T) histCase {
 	for i := 0; i < nAct; i++ {
 		switch rapid.IntRange(0, 5).Draw(t, "op") {
 		case 0, 1, 2:
-			a := spec.Access{Kind: rapid.SampledFrom(spec.Kinds).Draw(t, "kind"), Order: rapid.SampledFrom(spec.DocumentedOrders).Draw(t, "order"),
+			a := spec.Access{Kind: rapid.SampledFrom(spec.Kinds).Draw(t, "kind"), Order: anyOrder(t),
 				Bit: rapid.IntRange(0, 15).Draw(t, "bit"), High: rapid.Bool().Draw(t, "high"), Length: rapid.IntRange(1, 9).Draw(t, "len")}
 			a.Addr = (addrIn() + 65536) % 65536
 			c.Actions = append(c.Actions, action{Op: "access", Access: a, NewView: rapid.Bool().Draw(t, "newview")})
 		case 3:
-			a := spec.Access{Kind: rapid.SampledFrom([]string{"Register", "DoubleRegister", "QuadRegister"}).Draw(t, "kind"), Order: rapid.SampledFrom(spec.DocumentedOrders).Draw(t, "order")}
+			a := spec.Access{Kind: rapid.SampledFrom([]string{"Register", "DoubleRegister", "QuadRegister"}).Draw(t, "kind"), Order: anyOrder(t)}
 			a.Addr = (addrIn() + 65536) % 65536
 			c.Actions = append(c.Actions, action{Op: "clobber", Access: a})
 		case 4, 5:
@@ -357,6 +369,7 @@ func genHist(t *rapid.T) histCase {
 				}
 				f := fgen.RegisterField(t, fmt.Sprintf("f%d", k), lo, hi)
 				f.ServerAddress = "s"
+				f.ByteOrder = packet.ByteOrder(anyOrder(t))
 				a.Fields = append(a.Fields, f)
 			}
 			if rapid.IntRange(0, 3).Draw(t, "dup") == 0 && len(a.Fields) > 0 {
@@ -380,7 +393,7 @@ func TestRandom(t *testing.T) {
 
 // TestSameStringTwice: the shortest history that matters, for every documented order and both access paths.
 func TestSameStringTwice(t *testing.T) {
-	for _, ord := range spec.DocumentedOrders {
+	for _, ord := range append(append([]uint8(nil), spec.DocumentedOrders...), spec.LowWordFirst, spec.HighWordFirst, 3, 12, 0xFF) {
 		for _, fc := range []uint8{3, 4, 23} {
 			for _, l := range []int{1, 2, 3, 4, 7} {
 				a := action{Op: "access", Access: spec.Access{Kind: "StringWithByteOrder", Addr: 11, Length: l, Order: ord}}
